@@ -59,7 +59,7 @@ def claims(pid, op, kind, wf):
     if pid == "C11":
         return op == "clone" and kind in ("struct", "uid-presence")
     if pid == "C12":
-        return kind.startswith("uid") or op == "decoded"
+        return kind.startswith("uid") or op in ("decoded", "reserve")
     return False
 
 
